@@ -1,9 +1,10 @@
 //! Text writer family (C14, C15): the real TextWriter into a Vec<u8>, driven by call lists or tapes.
 //!
-//! cfg    = `<indent_char>,<indent_factor>,<r|d>` (the profile letter is for the model only)
+//! cfg    = `<indent_char>,<indent_factor>,<r|d>` (the profile letter is for the model only); `d` in place of
+//!          indent_char / indent_factor = that builder setter is not called (wave 4)
 //! calls  = `;`-separated: u:<hex> q:<hex> op:<code> h:<hex> s os as e b:<0|1> i32:<z> u32:<n> u64:<n>
 //!          i64:<z> f32:<bits>:<text> f64:<bits>:<text> f32p:<bits>:<prec>:<text> f64p:..
-//!          date:<d|h|u>:<y>:<m>:<d>:<h> rgb:<r>:<g>:<b>[:<a>] m fmt:<hex> bin:<TOKEN...>
+//!          date:<d|h|u>:<y>:<m>:<d>:<h> dateiso:<d|h|u>:<y>:<m>:<d>:<h> rgb:<r>:<g>:<b>[:<a>] m fmt:<hex> bin:<TOKEN...>
 //!          (bits in hex; <text> = what Display prints, consumed by the model only)
 //! output = `<hex of bytes written> <log>`, log = per call `[E]<depth>.<k + 2u + 4a>` joined by `,`
 use super::fam_texttape::{show_tape, show_tokens};
